@@ -844,3 +844,29 @@ Theorem model_is_code_to_string_helpers : forall t,
   gen_to_iso8601_string t = string_helper [116; 111; 95; 105; 115; 111; 56; 54; 48; 49; 95; 115; 116; 114; 105; 110; 103] t.
 Proof. intros t. split; [intros; apply gen_to_string_eq | exact (gen_to_iso8601_string_eq t iso8601_helper_entry)]. Qed.
 Print Assumptions model_is_code_to_string_helpers.
+
+(* ---- THE MODEL IS THE CODE (parse side).  Gen/FormatterParseMethods.v is translated from /repo's formatter.py on every run (g73_formatter_parse.py):
+   _get_parsed_value whole (the elif chain: two-digit year pivot 68 / 69, hh / h above 12, the Z / ZZ offset text with sign, hh / mm split and ":"; z against
+   pendulum.timezones(); X / x into parsed["timestamp"]), _get_parsed_locale_value (static unit / match keys, Do; the a / A branch is the named primitive
+   parse_meridiem: NOT translated), the loop of _get_parsed_values, and Formatter.parse as the recognised statement list whose re.sub callback is the translated
+   _get_parsed_values.  The hand models of Model/FormatterParse.v EQUAL the translation for every token, text, state, locale, format.  Primitives (Model/
+   FormatterParsePrims.v + the model's own): the regex engine mre / search_anchored / sub_matches, re_escape, the tokenisation of the escaped format, the pattern
+   assembly replace_token (= _replace_tokens) and check_parsed (= _check_parsed) stay hand-written + pinned by fingerprint (Proofs/C08SourceTie.v);
+   _PARSE_TOKENS / _REGEX_TOKENS / _LOCALIZABLE_TOKENS are generated data; Locale.match_translation is the model's match_translation (pinned). *)
+From PV Require Import Model.FormatterParsePrims Gen.FormatterParseMethods Proofs.FormatterParseMethodsFacts.
+
+Theorem model_is_code_get_parsed_value : forall zones tok value p, gen_get_parsed_value zones tok value p = get_parsed_value zones tok value p.
+Proof. exact gen_get_parsed_value_eq. Qed.
+Print Assumptions model_is_code_get_parsed_value.
+
+Theorem model_is_code_get_parsed_locale_value : forall loc tok value p, gen_get_parsed_locale_value loc tok value p = get_parsed_locale_value loc tok value p.
+Proof. exact gen_get_parsed_locale_value_eq. Qed.
+Print Assumptions model_is_code_get_parsed_locale_value.
+
+Theorem model_is_code_get_parsed_values : forall zones loc cs names p, gen_get_parsed_values zones loc names cs p = get_parsed_values zones loc names cs p.
+Proof. exact gen_get_parsed_values_eq. Qed.
+Print Assumptions model_is_code_get_parsed_values.
+
+Theorem model_is_code_from_format_parse : forall rs zones lname now time fmt, gen_parse rs zones lname now time fmt = parse rs zones lname now time fmt.
+Proof. exact gen_parse_eq. Qed.
+Print Assumptions model_is_code_from_format_parse.
